@@ -315,6 +315,13 @@ def execute(scenario, chooser):
     else:
         check_history(scenario, hist.ev, final, violation, sim)
     res['probes'] = dict(sim.stats)
+    ops_all = [op['op'] for c in scenario['clients'] for op in c]
+    res['faults'] = {
+        'job_body_raises': sim.stats.get('job_raised', 0),
+        'stop_request_delivered': sim.stats.get('stopped_by_controller', 0),
+        'clear_queue': ops_all.count('clear'),
+        'thread_preemption': sim.switches,
+    }
     res['sample'] = {'clients': scenario['clients'],
                      'jobs': [(j['id'], j['how'], j['kind'])
                               for j in scenario['jobs']],
